@@ -64,3 +64,35 @@ package api
 //@   props C14
 //@   trusted
 //@   requires m != nil
+
+// ---------------------------------------------------------------------------
+// LinuxResources.Copy (resources.go): equal fields, no shared mutable state
+// ---------------------------------------------------------------------------
+//@ pure optCopyI64(a *OptionalInt64, b *OptionalInt64) = (b == nil ==> a == nil) && (b != nil ==> a != nil && fresh(a) && a.Value == b.Value)
+//@ pure optCopyU64(a *OptionalUInt64, b *OptionalUInt64) = (b == nil ==> a == nil) && (b != nil ==> a != nil && fresh(a) && a.Value == b.Value)
+//@ pure optCopyBool(a *OptionalBool, b *OptionalBool) = (b == nil ==> a == nil) && (b != nil ==> a != nil && fresh(a) && a.Value == b.Value)
+//@ pure optCopyStr(a *OptionalString, b *OptionalString) = (b == nil ==> a == nil) && (b != nil ==> a != nil && fresh(a) && a.Value == b.Value)
+//@ pure noNilHPs(s []*HugepageLimit) = forall i int :: 0 <= i && i < len(s) ==> allocated(s[i])
+//@ func LinuxResources.Copy
+//@   props C14 C05 C04
+//@   requires r != nil ==> noNilHPs(r.HugepageLimits)
+//@   ensures [nil]    r == nil ==> result == nil
+//@   ensures [fresh]  r != nil ==> result != nil && fresh(result)
+//@   ensures [mem]    r != nil ==> (r.Memory == nil ==> result.Memory == nil) && (r.Memory != nil ==> result.Memory != nil && fresh(result.Memory)
+//@                    && optCopyI64(result.Memory.Limit, r.Memory.Limit) && optCopyI64(result.Memory.Reservation, r.Memory.Reservation) && optCopyI64(result.Memory.Swap, r.Memory.Swap) && optCopyI64(result.Memory.Kernel, r.Memory.Kernel) && optCopyI64(result.Memory.KernelTcp, r.Memory.KernelTcp) && optCopyU64(result.Memory.Swappiness, r.Memory.Swappiness) && optCopyBool(result.Memory.DisableOomKiller, r.Memory.DisableOomKiller) && optCopyBool(result.Memory.UseHierarchy, r.Memory.UseHierarchy))
+//@   ensures [cpu]    r != nil ==> (r.Cpu == nil ==> result.Cpu == nil) && (r.Cpu != nil ==> result.Cpu != nil && fresh(result.Cpu)
+//@                    && optCopyU64(result.Cpu.Shares, r.Cpu.Shares) && optCopyI64(result.Cpu.Quota, r.Cpu.Quota) && optCopyU64(result.Cpu.Period, r.Cpu.Period) && optCopyI64(result.Cpu.RealtimeRuntime, r.Cpu.RealtimeRuntime) && optCopyU64(result.Cpu.RealtimePeriod, r.Cpu.RealtimePeriod) && result.Cpu.Cpus == r.Cpu.Cpus && result.Cpu.Mems == r.Cpu.Mems)
+//@   ensures [hp]     r != nil ==> len(result.HugepageLimits) == len(r.HugepageLimits) && (len(r.HugepageLimits) > 0 ==> fresh(result.HugepageLimits))
+//@                    && (forall i int :: 0 <= i && i < len(r.HugepageLimits) ==> r.HugepageLimits[i].PageSize == result.HugepageLimits[i].PageSize && r.HugepageLimits[i].Limit == result.HugepageLimits[i].Limit && fresh(result.HugepageLimits[i]))
+//@   ensures [uni]    r != nil ==> (old(len(r.Unified)) == 0 ==> result.Unified == nil) && (old(len(r.Unified)) != 0 ==> result.Unified != nil && fresh(result.Unified))
+//@                    && (forall k string :: has(result.Unified, k) == old(has(r.Unified, k)) && result.Unified[k] == old(r.Unified[k]))
+//@   ensures [pids]   r != nil ==> (r.Pids == nil ==> result.Pids == nil) && (r.Pids != nil ==> result.Pids != nil && fresh(result.Pids) && result.Pids.Limit == r.Pids.Limit)
+//@   ensures [class]  r != nil ==> optCopyStr(result.BlockioClass, r.BlockioClass) && optCopyStr(result.RdtClass, r.RdtClass)
+//@   ensures [nodev]  r != nil ==> len(result.Devices) == 0
+//@   loop 1 invariant 0 <= idx + 1 && idx + 1 <= len(r.HugepageLimits) && allocated(o) && fresh(o) && len(o.HugepageLimits) == idx + 1 && (idx >= 0 ==> fresh(o.HugepageLimits)) && (idx == 0 - 1 ==> o.HugepageLimits == nil)
+//@   loop 1 invariant forall i int :: 0 <= i && i <= idx ==> r.HugepageLimits[i].PageSize == o.HugepageLimits[i].PageSize && r.HugepageLimits[i].Limit == o.HugepageLimits[i].Limit && fresh(o.HugepageLimits[i])
+//@   loop 1 invariant o.Memory == pre(o.Memory) && o.Cpu == pre(o.Cpu) && sep(base(o.HugepageLimits), base(r.HugepageLimits))
+//@   loop 2 invariant allocated(o) && fresh(o) && o.Unified != nil && fresh(o.Unified) && o.Unified != r.Unified
+//@   loop 2 invariant forall k string :: visited(k) ==> has(o.Unified, k) && o.Unified[k] == r.Unified[k]
+//@   loop 2 invariant forall k string :: has(o.Unified, k) ==> has(r.Unified, k) && o.Unified[k] == r.Unified[k]
+//@   loop 2 invariant o.Memory == pre(o.Memory) && o.Cpu == pre(o.Cpu) && o.HugepageLimits == pre(o.HugepageLimits)
